@@ -1322,6 +1322,18 @@ fn hang_binop_expression(
                         format_expression_internal(ctx, &lhs, context, shape)
                     };
 
+                    // The left operand may only end with a single line comment once it is formatted (redundant parentheses
+                    // around it are removed): the operator has to start a new line then, although we did not plan to hang
+                    let hang_behind_comment = lhs.has_trailing_comments(CommentSearch::Single);
+                    if hang_behind_comment {
+                        new_binop = hang_binop(
+                            ctx,
+                            binop.to_owned(),
+                            shape.increment_additional_indent(),
+                            &rhs,
+                        );
+                    }
+
                     let rhs = if contains_comments(&*rhs) {
                         hang_binop_expression(ctx, *rhs, binop, shape, lhs_range, rhs_context)
                     } else {
@@ -1331,6 +1343,11 @@ fn hang_binop_expression(
                             ExpressionContext::UnaryOrBinary,
                             shape,
                         )
+                    };
+                    let rhs = if hang_behind_comment {
+                        rhs.update_leading_trivia(FormatTriviaType::Replace(Vec::new()))
+                    } else {
+                        rhs
                     };
 
                     (lhs, rhs)
